@@ -5,6 +5,7 @@ import Pixman.Lemmas.ExtentPad
 import Pixman.Lemmas.ExtentAlloc
 import Pixman.Props.C04Core
 import Pixman.Gen.BilinearSplit
+import Pixman.Lemmas.TrapBounds
 /-! C04 — no access outside the described pixel storage: property theorems about the request
     analysis (`analyze_extent`, the COVER_CLIP flags, the 16.16 range test), the coordinate walks
     they license, `pad_repeat_get_scanline_bounds`, and the allocation size arithmetic.
@@ -458,6 +459,114 @@ theorem unrepresentable_corner_dropped_partial (img : Image) (e : Box32)
     · rw [h1] at htr; cases htr
     · rw [h1]; exact ⟨_, Or.inl rfl⟩
 
+/-! ### projective sources: what holds for interior pixels
+
+For a projective matrix the code examines only the four corners (`unrepresentable_corner_dropped_partial`).
+What is TRUE for the interior: the exact image of the pixel box lies in the convex hull of the exact corner
+images as long as the homogeneous coordinate `w` is positive on the four corners (`projective_between`, over
+exact rationals written cross-multiplied) — but `compute_transformed_extents` sees the corners only after
+`pixman_transform_point` rounded them to 1/65536 (nearest, ties away from zero), and the fetcher rounds every
+interior pixel again, independently; so the rounded interior coordinate is only within ONE unit of the box of
+rounded corners (`projective_interior_within_one`).  No stronger statement holds for the code as it is, and
+none is needed: the 16.16 range test keeps `8·pixman_fixed_e` of slack, and the cover flags — which have no
+slack and therefore are NOT sound for projective sources — are consulted only for affine ones (fast paths and
+fetchers require FAST_PATH_AFFINE_TRANSFORM; since af551b2 also the opacity promotion); projective sources
+always take the bounds-checked general fetchers.  With `w ≤ 0` somewhere on the box the map has a pole inside
+and no bound holds at all; the code then still examines only corners (harmless for the same reason). -/
+
+section Projective
+
+/-- (exact) `w > 0` at the four corner pixels ⇒ `w > 0` at every pixel of the box, and every bound `lo ≤ x/w ≤ hi`
+    (16.16 units; written `lo·w ≤ 65536·x ≤ hi·w`) that holds at the four corners holds at every pixel -/
+theorem projective_between (t : Transform) (x1 y1 x2 y2 i j lo hi : Int) (hi' : x1 ≤ i ∧ i ≤ x2) (hj : y1 ≤ j ∧ j ≤ y2)
+    (d00 : 0 < pnum t.m20 t.m21 t.m22 x1 y1) (d10 : 0 < pnum t.m20 t.m21 t.m22 x2 y1)
+    (d01 : 0 < pnum t.m20 t.m21 t.m22 x1 y2) (d11 : 0 < pnum t.m20 t.m21 t.m22 x2 y2)
+    (c00 : lo * pnum t.m20 t.m21 t.m22 x1 y1 ≤ 65536 * pnum t.m00 t.m01 t.m02 x1 y1 ∧
+           65536 * pnum t.m00 t.m01 t.m02 x1 y1 ≤ hi * pnum t.m20 t.m21 t.m22 x1 y1)
+    (c10 : lo * pnum t.m20 t.m21 t.m22 x2 y1 ≤ 65536 * pnum t.m00 t.m01 t.m02 x2 y1 ∧
+           65536 * pnum t.m00 t.m01 t.m02 x2 y1 ≤ hi * pnum t.m20 t.m21 t.m22 x2 y1)
+    (c01 : lo * pnum t.m20 t.m21 t.m22 x1 y2 ≤ 65536 * pnum t.m00 t.m01 t.m02 x1 y2 ∧
+           65536 * pnum t.m00 t.m01 t.m02 x1 y2 ≤ hi * pnum t.m20 t.m21 t.m22 x1 y2)
+    (c11 : lo * pnum t.m20 t.m21 t.m22 x2 y2 ≤ 65536 * pnum t.m00 t.m01 t.m02 x2 y2 ∧
+           65536 * pnum t.m00 t.m01 t.m02 x2 y2 ≤ hi * pnum t.m20 t.m21 t.m22 x2 y2) :
+    0 < pnum t.m20 t.m21 t.m22 i j ∧
+    lo * pnum t.m20 t.m21 t.m22 i j ≤ 65536 * pnum t.m00 t.m01 t.m02 i j ∧
+    65536 * pnum t.m00 t.m01 t.m02 i j ≤ hi * pnum t.m20 t.m21 t.m22 i j := by
+  have one (u v : Int) : pnum 0 0 1 u v = 65536 := by unfold pnum dot; omega
+  have hd := pform_nonneg 65536 1 t.m20 t.m21 t.m22 0 0 1 x1 y1 x2 y2 i j hi' hj
+    (by rw [one]; omega) (by rw [one]; omega) (by rw [one]; omega) (by rw [one]; omega)
+  rw [one] at hd
+  have hl := pform_nonneg 65536 lo t.m00 t.m01 t.m02 t.m20 t.m21 t.m22 x1 y1 x2 y2 i j hi' hj
+    (by omega) (by omega) (by omega) (by omega)
+  have hu := pform_nonneg hi 65536 t.m20 t.m21 t.m22 t.m00 t.m01 t.m02 x1 y1 x2 y2 i j hi' hj
+    (by omega) (by omega) (by omega) (by omega)
+  exact ⟨by omega, by omega, by omega⟩
+
+theorem nearest_bounds (q n d : Int) (hd : 0 < d) (h : IsNearest q n d) :
+    (2 * q - 1) * d ≤ 2 * n ∧ 2 * n ≤ (2 * q + 1) * d := by
+  unfold IsNearest Pixman.Spec.Fixed.abs at h
+  rw [Int.sub_mul, Int.add_mul, Int.mul_assoc, Int.one_mul]
+  generalize q * d = qd at *
+  split at h <;> split at h <;> omega
+
+theorem nonneg_of_mul_pos (k d : Int) (hd : 0 < d) (h : 0 ≤ k * d) : 0 ≤ k := by
+  apply Classical.byContradiction; intro hk
+  have : k * d ≤ (-1) * d := Int.mul_le_mul_of_nonneg_right (by omega) (by omega)
+  omega
+
+/-- (rounding slack stated separately) if the ROUNDED corner images `q00 … q11` (any nearest roundings, which is
+    what `pixman_transform_point` returns, C11 `transformPoint_exact`) lie in `[lo, hi]`, then any nearest rounding
+    `q` of the image of an interior pixel lies in `[lo - 1, hi + 1]`: one unit of slack, no more -/
+theorem projective_interior_within_one (t : Transform) (x1 y1 x2 y2 i j lo hi : Int) (hi' : x1 ≤ i ∧ i ≤ x2) (hj : y1 ≤ j ∧ j ≤ y2)
+    (d00 : 0 < pnum t.m20 t.m21 t.m22 x1 y1) (d10 : 0 < pnum t.m20 t.m21 t.m22 x2 y1)
+    (d01 : 0 < pnum t.m20 t.m21 t.m22 x1 y2) (d11 : 0 < pnum t.m20 t.m21 t.m22 x2 y2)
+    (q00 q10 q01 q11 q : Int)
+    (n00 : IsNearest q00 (pnum t.m00 t.m01 t.m02 x1 y1 * 65536) (pnum t.m20 t.m21 t.m22 x1 y1))
+    (n10 : IsNearest q10 (pnum t.m00 t.m01 t.m02 x2 y1 * 65536) (pnum t.m20 t.m21 t.m22 x2 y1))
+    (n01 : IsNearest q01 (pnum t.m00 t.m01 t.m02 x1 y2 * 65536) (pnum t.m20 t.m21 t.m22 x1 y2))
+    (n11 : IsNearest q11 (pnum t.m00 t.m01 t.m02 x2 y2 * 65536) (pnum t.m20 t.m21 t.m22 x2 y2))
+    (b00 : lo ≤ q00 ∧ q00 ≤ hi) (b10 : lo ≤ q10 ∧ q10 ≤ hi) (b01 : lo ≤ q01 ∧ q01 ≤ hi) (b11 : lo ≤ q11 ∧ q11 ≤ hi)
+    (nq : IsNearest q (pnum t.m00 t.m01 t.m02 i j * 65536) (pnum t.m20 t.m21 t.m22 i j)) :
+    lo - 1 ≤ q ∧ q ≤ hi + 1 := by
+  -- corner facts in cross-multiplied form with the half unit of rounding
+  have corner (qc nc dc : Int) (hdc : 0 < dc) (hn : IsNearest qc (nc * 65536) dc) (hb : lo ≤ qc ∧ qc ≤ hi) :
+      0 ≤ 131072 * nc - (2 * lo - 1) * dc ∧ 0 ≤ (2 * hi + 1) * dc - 131072 * nc := by
+    obtain ⟨l, u⟩ := nearest_bounds qc (nc * 65536) dc hdc hn
+    have m1 : (2 * lo - 1) * dc ≤ (2 * qc - 1) * dc := Int.mul_le_mul_of_nonneg_right (by omega) (by omega)
+    have m2 : (2 * qc + 1) * dc ≤ (2 * hi + 1) * dc := Int.mul_le_mul_of_nonneg_right (by omega) (by omega)
+    omega
+  have k00 := corner q00 _ _ d00 n00 b00
+  have k10 := corner q10 _ _ d10 n10 b10
+  have k01 := corner q01 _ _ d01 n01 b01
+  have k11 := corner q11 _ _ d11 n11 b11
+  have one (u v : Int) : pnum 0 0 1 u v = 65536 := by unfold pnum dot; omega
+  have hd := pform_nonneg 65536 1 t.m20 t.m21 t.m22 0 0 1 x1 y1 x2 y2 i j hi' hj
+    (by rw [one]; omega) (by rw [one]; omega) (by rw [one]; omega) (by rw [one]; omega)
+  rw [one] at hd
+  have hdpos : 0 < pnum t.m20 t.m21 t.m22 i j := by omega
+  have hl := pform_nonneg 131072 (2 * lo - 1) t.m00 t.m01 t.m02 t.m20 t.m21 t.m22 x1 y1 x2 y2 i j hi' hj k00.1 k10.1 k01.1 k11.1
+  have hu := pform_nonneg (2 * hi + 1) 131072 t.m20 t.m21 t.m22 t.m00 t.m01 t.m02 x1 y1 x2 y2 i j hi' hj k00.2 k10.2 k01.2 k11.2
+  obtain ⟨l, u⟩ := nearest_bounds q _ _ hdpos nq
+  generalize pnum t.m20 t.m21 t.m22 i j = D at *
+  generalize pnum t.m00 t.m01 t.m02 i j = N at *
+  constructor
+  · have : 0 ≤ (q - (lo - 1)) * D := by
+      have e1 : (q - (lo - 1)) * D = q * D - lo * D + D := by rw [Int.sub_mul, Int.sub_mul, Int.one_mul]; omega
+      have e2 : (2 * q + 1) * D = 2 * (q * D) + D := by rw [Int.add_mul, Int.mul_assoc, Int.one_mul]
+      have e3 : (2 * lo - 1) * D = 2 * (lo * D) - D := by rw [Int.sub_mul, Int.mul_assoc, Int.one_mul]
+      rw [e1]; rw [e2] at u; rw [e3] at hl; omega
+    have := nonneg_of_mul_pos _ D hdpos this
+    omega
+  · have : 0 ≤ (hi + 1 - q) * D := by
+      have e1 : (hi + 1 - q) * D = hi * D + D - q * D := by rw [Int.sub_mul, Int.add_mul, Int.one_mul]
+      have e2 : (2 * q - 1) * D = 2 * (q * D) - D := by rw [Int.sub_mul, Int.mul_assoc, Int.one_mul]
+      have e3 : (2 * hi + 1) * D = 2 * (hi * D) + D := by rw [Int.add_mul, Int.mul_assoc, Int.one_mul]
+      rw [e1]; rw [e2] at l; rw [e3] at hu; omega
+    have := nonneg_of_mul_pos _ D hdpos this
+    omega
+
+end Projective
+
 /-! ### S6: pad_repeat_get_scanline_bounds -/
 
 open Pixman.Lemmas.ExtentPad in
@@ -888,5 +997,121 @@ example : wrapNumPixels (64 * 65536) (63 * 65536) 32768 = 2 ∧ plainNumPixels (
     plainNumPixels (64 * 65536) (62 * 65536 + 32768) 32768 = 1 := by decide
 
 end BilinearSplit
+
+/-! ### S8: the trapezoid rasteriser writes only columns `[0, width)` of rows `[0, height)`
+
+On top of C12's literal model of `rasterize_edges_1/4/8`, `pixman_rasterize_trapezoid`, `pixman_add_traps`
+(`Pixman/Model/Trap.lean`; imported, not edited).  ARBITRARY edge-walker state (no exactness / no-overflow
+hypothesis on the edges), every depth, every image.  The clamps are those regenerated from the source text
+(`Pixman/Gen/EdgeClamps.lean`, tools/gen_edgeclamps.py): the `*_clamps` theorems are `rfl`-bridges saying the
+model uses exactly them, so `>` for `>=` (seed C03-m2) or a dropped `- 1` (seed C04-m2) breaks an obligation.
+
+Because the model's rows are arrays (an out-of-range `Array.modify` is a no-op), column safety is stated about
+the INDICES the row bodies pass to the array operations (`spanN_in_row`, `span8_in_row`, `span1_in_row`,
+`a1_words_in_row`, `row8Fill_cols`, `flush_cols`), row safety about the model image (`Frame`: same dimensions,
+same number of rows, same row lengths, `oob` and `runaway` flags unchanged, rows outside `[lo, hi]` untouched). -/
+
+section S8
+open Pixman.Trap Pixman.Gen.EdgeClamps Pixman.Lemmas.TrapBounds
+
+theorem row1_clamps (row : Array Nat) (width lx rx : Int) :
+    row1 row width lx rx = Pixman.Lemmas.TrapRow.row1Core row (clampLx1 (wrap32 (lx + (Pixman.Gen.SampleGrid.xFracFirst 1 - 1))))
+      (clampRx1 (wrap32 (rx + (Pixman.Gen.SampleGrid.xFracFirst 1 - 1))) width) :=
+  Pixman.Lemmas.TrapBounds.row1_clamps row width lx rx
+theorem row4_clamps (row : Array Nat) (width lx rx : Int) :
+    row4 row width lx rx = Pixman.Lemmas.TrapRow.row4Core row (clampLxN lx) (clampRxN rx width) :=
+  Pixman.Lemmas.TrapBounds.row4_clamps row width lx rx
+theorem row8Fill_clamps (row : Array Nat) (width lx rx : Int) (fs : Fill) :
+    row8Fill row width lx rx fs = Pixman.Lemmas.TrapFill.row8FillCore row (clampLx8 lx) (clampRx8 rx width) fs :=
+  Pixman.Lemmas.TrapBounds.row8Fill_clamps row width lx rx fs
+/-- `pixman_add_traps`: first row `sample_ceil_y (clampTop (top.y + y_off))`, last row
+    `sample_floor_y (clampBot (bot.y + y_off, height))`, drawn iff `b ≥ t` -/
+theorem trapSetup_clamps_first_last (n : Nat) (height xo yo : Int) (tr : Trap) (t b : Int) (l r : Edge)
+    (h : trapSetup n height xo yo tr = some (t, b, l, r)) :
+    t = sampleCeilY (clampTopTraps (wrap32 (tr.topY + yo))) n ∧
+    b = sampleFloorY (clampBotTraps (wrap32 (tr.botY + yo)) height) n ∧ b ≥ t := by
+  rw [Pixman.Lemmas.TrapBounds.trapSetup_clamps] at h
+  split at h
+  · rename_i hrun
+    injection h with h; injection h with h1 h; injection h with h2 _
+    subst h1; subst h2; exact ⟨rfl, rfl, hrun⟩
+  · cases h
+/-- `pixman_rasterize_trapezoid`: the same with its own copies of the clamps -/
+theorem trapezoidSetup_clamps_first_last (n : Nat) (height : Int) (tr : Trapezoid) (xOff yOff : Int) (t b : Int) (l r : Edge)
+    (h : trapezoidSetup n height tr xOff yOff = some (t, b, l, r)) :
+    t = sampleCeilY (clampTopTrapezoid (wrap32 (tr.top + Pixman.Trap.intToFixed yOff))) n ∧
+    b = sampleFloorY (clampBotTrapezoid (wrap32 (tr.bottom + Pixman.Trap.intToFixed yOff)) height) n ∧ b ≥ t := by
+  rw [Pixman.Lemmas.TrapBounds.trapezoidSetup_clamps] at h
+  split at h
+  · cases h
+  · split at h
+    · rename_i hrun
+      injection h with h; injection h with h1 h; injection h with h2 _
+      subst h1; subst h2; exact ⟨rfl, rfl, hrun⟩
+    · cases h
+
+/-- (S8 columns, a4 = `rasterize_edges_4`) a drawn span has `0 ≤ lxi ≤ rxi ≤ width - 1`; `row4Core` touches exactly
+    the pixels `lxi, lxi+1 … rxi-1, rxi` -/
+theorem spanN_in_row (lx0 rx0 width : Int) (hw : 0 ≤ width ∧ width ≤ 32767) (h : clampRxN rx0 width > clampLxN lx0) :
+    0 ≤ Pixman.Trap.fixedToInt (clampLxN lx0) ∧ Pixman.Trap.fixedToInt (clampLxN lx0) ≤ Pixman.Trap.fixedToInt (clampRxN rx0 width) ∧
+    Pixman.Trap.fixedToInt (clampRxN rx0 width) ≤ width - 1 := spanN_bounds lx0 rx0 width hw h
+/-- (S8 columns, a8 = `rasterize_edges_8`) -/
+theorem span8_in_row (lx0 rx0 width : Int) (hw : 0 ≤ width ∧ width ≤ 32767) (h : clampRx8 rx0 width > clampLx8 lx0) :
+    0 ≤ Pixman.Trap.fixedToInt (clampLx8 lx0) ∧ Pixman.Trap.fixedToInt (clampLx8 lx0) ≤ Pixman.Trap.fixedToInt (clampRx8 rx0 width) ∧
+    Pixman.Trap.fixedToInt (clampRx8 rx0 width) ≤ width - 1 := span8_bounds lx0 rx0 width hw h
+/-- (S8 columns, a1) a drawn span sets the pixels `lxi … rxi-1` with `0 ≤ lxi ≤ rxi ≤ width` … -/
+theorem span1_in_row (lx rx width : Int) (hw : 0 ≤ width ∧ width ≤ 32767) (h : clampRx1 rx width > clampLx1 lx) :
+    0 ≤ Pixman.Trap.fixedToInt (clampLx1 lx) ∧ Pixman.Trap.fixedToInt (clampLx1 lx) ≤ Pixman.Trap.fixedToInt (clampRx1 rx width) ∧
+    Pixman.Trap.fixedToInt (clampRx1 rx width) ≤ width := span1_bounds lx rx width hw h
+/-- … and every `uint32_t` the `MASK_BITS` walk reads/writes for such a span has index `< ⌈width/32⌉`.
+    PARTIAL: which bits of the start/end word are set (`LEFT_MASK`/`RIGHT_MASK`, endian-dependent shifts) is not
+    modelled — C12's model abstracts them to "pixels `lxi … rxi-1`", compared with the library pixel by pixel by C12's harness. -/
+theorem a1_words_in_row_partial (lxi rxi W : Int) (h0 : 0 ≤ lxi) (h1 : lxi ≤ rxi) (h2 : rxi ≤ W) :
+    let p := a1Plan lxi rxi
+    0 ≤ p.2.2.2.1 ∧
+    (p.1 = true → 0 ≤ p.2.1 ∧ p.2.1 * 32 < W) ∧
+    (0 < p.2.2.2.1 → 0 ≤ p.2.2.1 ∧ (p.2.2.1 + p.2.2.2.1 - 1) * 32 < W) ∧
+    (p.2.2.2.2 = true → 0 ≤ p.2.2.1 + p.2.2.2.1 ∧ (p.2.2.1 + p.2.2.2.1) * 32 < W) := a1Plan_in lxi rxi W h0 h1 h2
+/-- (S8 columns, a8 span-fill bookkeeping) see `Lemmas.TrapBounds.row8Fill_cols` -/
+theorem row8Fill_cols (row : Array Nat) (W lx rx : Int) (fs : Fill) (hW : 0 ≤ W ∧ W ≤ 32767) (hin : FillIn W fs) :
+    FillIn W (row8Fill row W lx rx fs).2 ∧
+    (clampRx8 rx W > clampLx8 lx →
+      0 ≤ Pixman.Trap.fixedToInt (clampLx8 lx) ∧ Pixman.Trap.fixedToInt (clampLx8 lx) ≤ Pixman.Trap.fixedToInt (clampRx8 rx W) ∧
+      Pixman.Trap.fixedToInt (clampRx8 rx W) ≤ W - 1 ∧
+      (Pixman.Trap.fixedToInt (clampLx8 lx) ≠ Pixman.Trap.fixedToInt (clampRx8 rx W) →
+        ∀ c ∈ fillMidCalls (Pixman.Trap.fixedToInt (clampLx8 lx) + 1) (Pixman.Trap.fixedToInt (clampRx8 rx W)) fs, CallIn W c)) :=
+  Pixman.Lemmas.TrapBounds.row8Fill_cols row W lx rx fs hW hin
+theorem fillMid_is_its_calls (R : Array Nat) (a b : Int) (fs : Fill) :
+    (Pixman.Lemmas.TrapFill.fillMid R a b fs).1 = applyCalls R (fillMidCalls a b fs) := fillMid_eq_calls R a b fs
+theorem flush_cols (W : Int) (R : Array Nat) (fs : Fill) (hin : FillIn W fs) :
+    flushFill R fs = applyCalls R (flushCalls fs) ∧ ∀ c ∈ flushCalls fs, CallIn W c :=
+  ⟨flushFill_eq_calls R fs, flush_calls_in W fs hin⟩
+
+/-- (S8 rows) `pixman_rasterize_edges` between grid rows `t ≤ b` inside the image -/
+theorem rasterizeEdges_in_rows (n : Nat) (hn : Pixman.Lemmas.TrapRows.Depth n) (img : Img) (hsz : img.rows.size = img.height)
+    (l r : Edge) (t b : Int) (ht : Pixman.Spec.SampleGrid.IsGridRow n t) (hb : Pixman.Spec.SampleGrid.IsGridRow n b)
+    (htb : t ≤ b) (ht0 : 0 ≤ t) (hbh : b / 65536 < (img.height : Int)) (hb2 : b ≤ 2147483647) :
+    Frame img (rasterizeEdges n img l r t b) (t / 65536) (b / 65536) :=
+  rasterizeEdges_frame n hn img hsz l r t b ht hb htb ht0 hbh hb2
+/-- (S8 rows) `pixman_add_traps`: ANY coordinates, offsets, image: only rows `0 … height-1` are touched, nothing outside
+    the rows is accessed (`oob` unchanged), the row loop terminates (`runaway` unchanged) -/
+theorem addTraps_in_image (n : Nat) (hn : Pixman.Lemmas.TrapRows.Depth n) (img : Img) (hsz : img.rows.size = img.height)
+    (xOff yOff : Int) (traps : List Trap) :
+    Frame img (addTraps n img xOff yOff traps) 0 ((img.height : Int) - 1) := addTraps_frame n hn img hsz xOff yOff traps
+/-- (S8 rows) `pixman_rasterize_trapezoid` -/
+theorem rasterizeTrapezoid_in_image (n : Nat) (hn : Pixman.Lemmas.TrapRows.Depth n) (img : Img) (hsz : img.rows.size = img.height)
+    (tr : Trapezoid) (xOff yOff : Int) :
+    Frame img (rasterizeTrapezoid n img tr xOff yOff) 0 ((img.height : Int) - 1) := rasterizeTrapezoid_frame n hn img hsz tr xOff yOff
+/-- (S8 rows) `pixman_add_trapezoids` -/
+theorem addTrapezoids_in_image (n : Nat) (hn : Pixman.Lemmas.TrapRows.Depth n) (img : Img) (hsz : img.rows.size = img.height)
+    (xOff yOff : Int) (traps : List Trapezoid) :
+    Frame img (addTrapezoids n img xOff yOff traps) 0 ((img.height : Int) - 1) := addTrapezoids_frame n hn img hsz xOff yOff traps
+
+/-- non-vacuity: a trap far outside a 4x2 a8 image (top at -32768.0, bottom at +32767.99998, abscissae ±2^31) still
+    leaves the flags alone -/
+example : (addTraps 8 (Img.mk' 4 2 0) 0 0 [⟨-2147483648, 2147483647, -2147483648, -2147483648, 2147483647, 2147483647⟩]).oob = false :=
+  (addTraps_in_image 8 (Or.inr (Or.inr rfl)) (Img.mk' 4 2 0) (by decide) 0 0 _).oob
+
+end S8
 
 end Pixman.Props.C04
